@@ -7,7 +7,7 @@ MODEL_NAME = "Dom/View.v"
 HARNESS = "dom"
 HARNESS_ARGS = ["c03"]
 ALLOWED_AXIOMS = []
-READY = False
+READY = True
 RUN_IMPORT = "Dom.ViewRun"
 
 RULE = ("case = (npre npost v0 (v1..vn)): a view value v0 drawn from the grammar text | unit | element(tag in p/span/div, "
@@ -37,7 +37,12 @@ ASSUMPTIONS = [
     "attribute insertion order is not part of the DOM that is compared (attributes are a map)",
 ]
 LEVEL_TEXT = "proof"
-LEVEL_NOTE = ""
+LEVEL_NOTE = ("unbounded machine-checked proof (rebuild = fresh render, for every sibling context, nesting depth and "
+              "history) for text, unit, elements with id/hidden/class/style attributes, tuples, Either, Option, Vec and "
+              "AnyView type changes; StaticVec (F-C03-ab) and an active class:on toggle (F-C03-c) are excluded by the "
+              "hypothesis okv and refuted by three proved witnesses; keyed lists are covered by C11 and by the oracle "
+              "here; the theorems speak about the id-free content function cs/cv of the model, the serialisation used "
+              "for the comparison with the implementation walks the same state")
 TECHNIQUE = "Coq proof of an executable model + differential correspondence on the native DOM hook"
 
 TEXTS = ["", "a", "b", "cc", "<x>"]
@@ -159,7 +164,7 @@ def has(v, code):
 
 
 def generate(rng, tier):
-    n = 5000 if tier == "quick" else 80000
+    n = 20000 if tier == "quick" else 200000
     depth = 4 if tier == "quick" else 5
     for i in range(n):
         r = rng.random()
